@@ -101,8 +101,16 @@ STAT: dict = {}    # largest observed error / allowed-error ratio per check (goe
 
 def stat(name, val):
     v = float(val)
+    if v != v:
+        v = float("inf")          # a NaN ratio is the worst ratio
     if v > STAT.get(name, 0.0):
         STAT[name] = v
+
+
+def over(err, tol):
+    """NaN-safe tolerance test: True when some entry of `err` is NOT within `tol` (a NaN error is a violation: `err > tol` would be
+    False for NaN and let it pass)"""
+    return not bool(np.all(np.asarray(err) <= np.asarray(tol)))
 
 
 def eps_of(case):
@@ -545,7 +553,7 @@ def check_solution(ctx: Ctx, case, prob, refs, x, u, cost, tag, ubar=None, T=Non
         for t in range(T):
             res = xn[b, t + 1] - (r.A[t] @ xn[b, t] + r.B[t] @ un[b, t] + r.c[t])
             sc = np.abs(r.A[t]) @ np.abs(xn[b, t]) + np.abs(r.B[t]) @ np.abs(un[b, t]) + np.abs(r.c[t])
-            bad = np.abs(res) > 32 * eps * sc + C_TOL * fl_v + 1e-300
+            bad = ~(np.abs(res) <= 32 * eps * sc + C_TOL * fl_v + 1e-300)
             stat("dynamics", (np.abs(res) / (32 * eps * sc + C_TOL * fl_v + 1e-300)).max())
             if bad.any():
                 ctx.fail(case, f"dynamics: {tag}: x[{t + 1}] != A x[{t}] + B u[{t}] + c1 (item {b}, residual "
@@ -555,7 +563,7 @@ def check_solution(ctx: Ctx, case, prob, refs, x, u, cost, tag, ubar=None, T=Non
         # reported cost
         J, Ja = r.cost(xn[b], un[b])
         stat("cost", abs(J - cn[b]) / (16 * (T + ns + nc) * eps * Ja + C_TOL * fl_c + 1e-300))
-        if abs(J - cn[b]) > 16 * (T + ns + nc) * eps * Ja + C_TOL * fl_c + 1e-300:
+        if over(abs(J - cn[b]), 16 * (T + ns + nc) * eps * Ja + C_TOL * fl_c + 1e-300):
             ctx.fail(case, f"cost: {tag}: reported cost {cn[b]!r} != sum of stage costs {J!r} (item {b})")
             ok = False
         if case.get("qstyle") == "nearsym":
@@ -567,17 +575,17 @@ def check_solution(ctx: Ctx, case, prob, refs, x, u, cost, tag, ubar=None, T=Non
         stat("gradient", (np.abs(g) / (tol_g + 1e-300)).max())
         stat("u-vs-optimum", (np.abs(un[b] - r.u) / (C_TOL * eps * tol_u + 1e-300)).max())
         stat("x-vs-optimum", (np.abs(xn[b] - r.x) / (C_TOL * eps * tol_x + 1e-300)).max())
-        if (np.abs(g) > tol_g + 1e-300).any():
+        if over(np.abs(g), tol_g + 1e-300):
             j = np.unravel_index(np.argmax(np.abs(g) / (tol_g + 1e-300)), g.shape)
             ctx.fail(case, f"optimal: {tag}: gradient of the total cost w.r.t. u[{j[0]}][{j[1]}] is {g[j]:.3e} "
                            f"(allowed {tol_g[j]:.3e}); cost {J!r} vs optimum {r.J!r} (item {b})")
             ok = False
-        elif (np.abs(un[b] - r.u) > C_TOL * eps * tol_u + 1e-300).any() or (np.abs(xn[b] - r.x) > C_TOL * eps * tol_x + 1e-300).any():
+        elif over(np.abs(un[b] - r.u), C_TOL * eps * tol_u + 1e-300) or over(np.abs(xn[b] - r.x), C_TOL * eps * tol_x + 1e-300):
             du = float(np.abs(un[b] - r.u).max())
             ctx.fail(case, f"optimal: {tag}: returned inputs differ from the minimiser by {du:.3e} (item {b}); "
                            f"cost {J!r} vs optimum {r.J!r}")
             ok = False
-        elif J - r.J > C_TOL * eps * Ja + C_TOL * fl_c + (C_TOL * eps) ** 2 * float(tol_u.reshape(-1) @ np.abs(r.H) @ tol_u.reshape(-1)) + 1e-300:
+        elif over(J - r.J, C_TOL * eps * Ja + C_TOL * fl_c + (C_TOL * eps) ** 2 * float(tol_u.reshape(-1) @ np.abs(r.H) @ tol_u.reshape(-1)) + 1e-300):
             ctx.fail(case, f"optimal: {tag}: cost {J!r} above the optimum {r.J!r} (item {b})")
             ok = False
     return ok
@@ -596,7 +604,7 @@ def perturb_test(ctx: Ctx, case, refs, u, tag, ubar=None):
         for scale in (1e-3, 1.0):
             d = rs.standard_normal(un[b].shape) * scale * (1 + np.abs(un[b]).max())
             J1, Ja1 = r.cost(r.rollout(un[b] + d), un[b] + d)
-            if J1 < J0 - C_TOL * eps * max(Ja, Ja1) - slack:
+            if not (J1 >= J0 - C_TOL * eps * max(Ja, Ja1) - slack):
                 ctx.fail(case, f"optimal: {tag}: a perturbation of size {scale} lowers the cost from {J0!r} to {J1!r} (item {b})")
                 return False
     return True
@@ -718,7 +726,7 @@ def tail_check(ctx: Ctx, case, prob, refs, first, tl, dt_call, tag):
             shift = np.abs(rt[b].u - refs[b].u[tc:])          # exact effect of x_t deviating from the exact optimum's x_t
             allowed = C_TOL * eps * (rt[b].tols(None, eps)[0] + tl[b][0][tc:]) + shift
             du = np.abs(ut_[b].detach().double().numpy() - first[1][b][tc:])
-            if (du > allowed + 1e-300).any():
+            if over(du, allowed + 1e-300):
                 ctx.fail(dict(case, focus=["tail", tc]), f"split: {tag}: the inputs u[{tc}:] differ from a fresh solve of the tail problem from the "
                                                          f"returned x[{tc}] by {du.max():.3e} (item {b})")
                 ok = False
@@ -995,7 +1003,7 @@ def _run_lqr_case(ctx: Ctx, case, lines, metas):
                             scale = (float(refs[b].lam0_abs.max()) + float(np.abs(refs[b].Q).max()) * Sd + float(np.abs(refs[b].p).max())) \
                                 * max(1.0, min(refs[b].condH, 1e6) ** 0.5)
                             rtol = 1e-7 if case["dtype"] == "float64" else 1e-2
-                            if not np.isfinite(gx[b]).all() or (np.abs(gx[b] - lam0) > rtol * scale + 1e-300).any():
+                            if not np.isfinite(gx[b]).all() or over(np.abs(gx[b] - lam0), rtol * scale + 1e-300):
                                 ctx.fail(case, f"autograd: {tag}: d(cost)/d(x_init) through the returned graph is {gx[b].tolist()}, "
                                                f"the costate of the optimum is {lam0.tolist()} (item {b})")
                                 ok = False
@@ -1059,7 +1067,7 @@ def _run_lqr_case(ctx: Ctx, case, lines, metas):
                                 xb_, ub_, cb_ = U.make_lqr(cb, pb, sb)(x0[b:b + 1].clone(), dt_call, None if un is None else torch.tensor(un[b:b + 1], dtype=dt_t))
                                 du = np.abs(ub_[0].detach().double().numpy() - first[1][b])
                                 dx = np.abs(xb_[0].detach().double().numpy() - first[0][b])
-                                if (du > 2 * C_TOL * eps * tl[b][0] + 1e-300).any() or (dx > 2 * C_TOL * eps * tl[b][1] + 1e-300).any():
+                                if over(du, 2 * C_TOL * eps * tl[b][0] + 1e-300) or over(dx, 2 * C_TOL * eps * tl[b][1] + 1e-300):
                                     ctx.fail(case, f"batch: {tag}: item {b} of the batch differs from the same problem solved alone "
                                                    f"by {du.max():.3e} in u, {dx.max():.3e} in x")
                                     ok = False
@@ -1082,7 +1090,7 @@ def _run_lqr_case(ctx: Ctx, case, lines, metas):
                     # code's result moves with the nominal at the size of the asymmetry — observation in the notes)
                     for b in (range(Bn) if case.get("qstyle") != "nearsym" else ()):
                         du = np.abs(u[b].detach().double().numpy() - first[1][b])
-                        if (du > C_TOL * eps * (tl[b][0] + first[3][b][0]) + 1e-300).any():
+                        if over(du, C_TOL * eps * (tl[b][0] + first[3][b][0]) + 1e-300):
                             ctx.fail(case, f"history: {tag} differs from the first solve on the same system by {du.max():.3e} in u (item {b})")
                             ok = False
                 prev_u = u.detach().double().numpy().copy()
@@ -1127,7 +1135,7 @@ def compare_lqr_model(ctx: Ctx, reps, metas):
         eps = eps_of(case)
         xm, um, cm, Km, km = U.parse_lqr_reply(rep, ns, nc, T)
         # model vs dense reference: a mismatch here is an infrastructure problem (both are mine), not a verdict
-        if case.get("qstyle") != "nearsym" and (np.abs(um - r.u) > C_TOL * eps * tol_u + 1e-30).any():
+        if case.get("qstyle") != "nearsym" and over(np.abs(um - r.u), C_TOL * eps * tol_u + 1e-30):
             # the float64 condensed reference is itself inexact on the most ill-conditioned problems (cond(H) ~ 1e13+); the
             # 192-bit model is the exact value: keep comparing the implementation with the MODEL (the error scales below are
             # still the right magnitudes), only note that the numpy reference was off here
@@ -1148,7 +1156,7 @@ def compare_lqr_model(ctx: Ctx, reps, metas):
             ctx.count("lqr.nearsym.agrees-with-model" if (eu.max() <= 1 and ex.max() <= 1) else "lqr.nearsym.DIFFERS-from-model")
             continue
         stat("model.u", eu.max()); stat("model.x", ex.max()); stat("model.cost", ec)
-        if eu.max() > 1 or ex.max() > 1 or ec > 1:
+        if over(eu, 1) or over(ex, 1) or over(ec, 1):
             ctx.disagree("lqr", case, f"item {b}: implementation vs model: u {np.abs(ui - um).max():.3e} (ratio {eu.max():.2f}), "
                                       f"x {np.abs(xi - xm).max():.3e} (ratio {ex.max():.2f}), cost {abs(ci - cm):.3e} (ratio {ec:.2f})")
         # gains, per time step: allowed = C*eps*(sensitivity of (K_t,k_t) to relative data perturbations + their size)
@@ -1156,7 +1164,7 @@ def compare_lqr_model(ctx: Ctx, reps, metas):
         eK = np.abs(Ki - Km).reshape(T, -1).max(axis=1) / (C_GAIN * eps * sK + 1e-300)
         ek = np.abs(ki - km).reshape(T, -1).max(axis=1) / (C_GAIN * eps * sk + C_GAIN * eps * eps * (np.abs(um).max() + np.abs(r.x).max()) + 1e-300)
         stat("model.K", eK.max()); stat("model.k", ek.max())
-        if eK.max() > 1 or ek.max() > 1:
+        if over(eK, 1) or over(ek, 1):
             t = int(np.argmax(np.maximum(eK, ek)))
             ctx.disagree("gains", case, f"item {b}: K[{t}] differs by {np.abs(Ki[t] - Km[t]).max():.3e} (ratio {eK[t]:.2f}), "
                                         f"k[{t}] by {np.abs(ki[t] - km[t]).max():.3e} (ratio {ek[t]:.2f})")
@@ -1418,7 +1426,7 @@ def nls_feasible(ctx: Ctx, case, sp, x, u, cost, tag):
     for t in range(T):
         res = xn[t + 1] - U.sin_f(sp, xn[t], un[t], t)
         sc = U.sin_f_scale(sp, xn[t], un[t])
-        if (np.abs(res) > 64 * eps * sc).any():
+        if over(np.abs(res), 64 * eps * sc):
             ctx.fail(case, f"dynamics: {tag}: x[{t + 1}] != f(x[{t}], u[{t}], t={t}) (residual {np.abs(res).max():.3e}, allowed {float((64 * eps * sc).max()):.3e})")
             ok = False
             break
@@ -1427,7 +1435,7 @@ def nls_feasible(ctx: Ctx, case, sp, x, u, cost, tag):
         tau = np.concatenate([xn[t], un[t]])
         J += 0.5 * tau @ sp["Q"][t] @ tau + sp["p"][t] @ tau
         Ja += 0.5 * np.abs(tau) @ np.abs(sp["Q"][t]) @ np.abs(tau) + np.abs(sp["p"][t]) @ np.abs(tau)
-    if abs(J - cn) > 16 * (T + ns + nc) * eps * Ja + 1e-300:
+    if over(abs(J - cn), 16 * (T + ns + nc) * eps * Ja + 1e-300):
         ctx.fail(case, f"cost: {tag}: reported cost {cn!r} != sum of stage costs {J!r}")
         ok = False
     return ok
@@ -1625,7 +1633,7 @@ def compare_mpc_model(ctx: Ctx, reps, metas):
             tc = 1e4 * eps * Ja + gsum
             eu, ex = (np.abs(ui - um) / (tu + 1e-300)).max(), (np.abs(xi - xm) / (tx + 1e-300)).max()
             stat("nls.u", eu); stat("nls.x", ex); stat("nls.cost", abs(ci - cm) / (tc + 1e-300))
-            if eu > 1 or ex > 1 or abs(ci - cm) > tc + 1e-300:
+            if over(eu, 1) or over(ex, 1) or over(abs(ci - cm), tc + 1e-300):
                 ctx.disagree("nls", case, f"LQR on the nonlinear system: u differs by {np.abs(ui - um).max():.3e} (ratio {eu:.2f}), "
                                           f"x by {np.abs(xi - xm).max():.3e} (ratio {ex:.2f}), cost {ci!r} vs {cm!r} (allowed {tc:.3e})")
             Ki, ki = aux
@@ -1635,7 +1643,7 @@ def compare_mpc_model(ctx: Ctx, reps, metas):
             eK = (np.abs(Ki - Km).reshape(T, -1).max(axis=1) / (1e4 * eps * sK + 1e-300)).max()
             ek = (np.abs(ki - km).reshape(T, -1).max(axis=1) / (1e4 * eps * sk + 1e4 * eps * eps * (np.abs(um).max() + np.abs(xm).max()) + 1e-300)).max()
             stat("nls.K", eK); stat("nls.k", ek)
-            if eK > 1 or ek > 1:
+            if over(eK, 1) or over(ek, 1):
                 ctx.disagree("gains", case, f"nonlinear system: K differs by {np.abs(Ki - Km).max():.3e} (ratio {eK:.2f}), k by {np.abs(ki - km).max():.3e} (ratio {ek:.2f})")
             continue
         nm, pcm, xm, um, cm, msm = U.parse_mpc_reply(rep, ns, nc, T)
@@ -1651,7 +1659,7 @@ def compare_mpc_model(ctx: Ctx, reps, metas):
             if case.get("qstyle") == "nearsym":     # informational, see compare_lqr_model
                 NEARSYM.append((float(eu.max()), float(ex.max()), float(np.abs(ui - um).max() / (np.abs(um).max() + 1e-300))))
                 continue
-            if eu.max() > 1 or ex.max() > 1 or abs(ci - cm) > C_TOL * eps * (Ja + float((_sg * tol_u).sum())) + C_TOL * r.floor(None, eps)[1] + 1e-300:
+            if over(eu, 1) or over(ex, 1) or over(abs(ci - cm), C_TOL * eps * (Ja + float((_sg * tol_u).sum())) + C_TOL * r.floor(None, eps)[1] + 1e-300):
                 ctx.disagree("mpc", case, f"call {call + 1}: MPC on a linear system vs model: u {np.abs(ui - um).max():.3e} "
                                           f"(ratio {eu.max():.2f}), x ratio {ex.max():.2f}, cost {ci!r} vs {cm!r}")
             continue
@@ -1675,7 +1683,7 @@ def compare_mpc_model(ctx: Ctx, reps, metas):
         tu, tx = nls_tol(sens, um, xm, eps, spc_, unom_)
         eu, ex = (np.abs(ui - um) / (tu + 1e-300)).max(), (np.abs(xi - xm) / (tx + 1e-300)).max()
         stat("mpc.nls.u", eu); stat("mpc.nls.x", ex)
-        if eu > 1 or ex > 1:
+        if over(eu, 1) or over(ex, 1):
             if fragile:
                 ctx.count("mpc.nls.fragile-decision")
                 continue
@@ -1887,7 +1895,7 @@ def run_huge_batch(ctx: Ctx):
             eu = ((u[:, 0] - uw).abs().amax(-1) / scale)
             ex = ((x[:, 1] - xw).abs().amax(-1) / (1 + xw.abs().amax(-1)))
             ec = (cost - cw).abs() / (1 + cw.abs())
-            bad = ((eu > 1e-9) | (ex > 1e-9) | (ec > 1e-9) | (x[:, 0] != x0).any(-1)).nonzero().flatten()
+            bad = (~(eu <= 1e-9) | ~(ex <= 1e-9) | ~(ec <= 1e-9) | (x[:, 0] != x0).any(-1)).nonzero().flatten()
             if tuple(u.shape) != (N, 1, nc) or tuple(x.shape) != (N, 2, ns) or tuple(cost.shape) != (N,):
                 ctx.fail(case, f"shape: batch of {N} one-step problems: returned x{tuple(x.shape)} u{tuple(u.shape)} cost{tuple(cost.shape)}")
             elif len(bad):
@@ -1996,13 +2004,13 @@ def run(ctx: Ctx):
         if ctx.quick and rng.random() < 0.75:       # (the corpus already sweeps all 81 extents in {1,2,3}^4)
             continue
         cases.append(gen_lqr_case(rng, small=sh))
-    for _ in range(ctx.pick(45, 2000)):
+    for _ in range(ctx.pick(35, 2000)):
         cases.append(gen_lqr_case(rng, big=True))
     for _ in range(ctx.pick(4, 150)):
         cases.append(gen_big_case(rng))
     for _ in range(ctx.pick(12, 300)):
         cases.append(gen_mpc_linear_case(rng, big=not ctx.quick))
-    for _ in range(ctx.pick(10, 400)):
+    for _ in range(ctx.pick(8, 400)):
         cases.append(gen_mpc_nls_case(rng, big=not ctx.quick))
     run_cases(ctx, cases)
     run_stepper(ctx, ctx.pick(40, 1000))
